@@ -1,11 +1,10 @@
 (* C10 (layercake part): a command reports success only if all of its effects were applied. *)
 From LC Require Import Lib.Bytes Lib.Lex Lib.Fields Lib.PathM Gen.Consts
-  Model.MountInfo Model.FsTree Model.Kernel Model.Layers Cases.Verdict Cases.LC.
+  Model.MountInfo Model.FsTree Model.Kernel Model.Layers Model.StageOut Cases.Verdict Cases.LC.
 Open Scope N_scope.
 Import LC LCS.
 
 Module C10.
-Definition case := LC.case.
 
 (* the k-th mutating operation was reached (so it failed): the command must not report success.
    Conversely a reported success means the fault was never hit, i.e. every step happened. *)
@@ -15,8 +14,34 @@ Definition step_spec (c : cfgT) (w : wobs) (v : sview) : bool :=
   | _ => true
   end.
 
-Definition spec (c : case) : bool := along_views (step_spec (c_cfg c)) (w0 c) (c_steps c).
-Definition wf := LC.wf.
+(* ---- stagemaker: -list / -generate with a failing output ---- *)
+Record scase := MkS {
+  sc_mode : N;          (* 0..3 -list system/installed/stage/stage -files; 4..7 -generate none/gzip/bzip2/xz *)
+  sc_sink : sink;
+  sc_size : N;          (* bytes of the complete output of the same command without a fault *)
+  sc_exit_ok : bool }.  (* observed: exit status 0 *)
+
+(* the property: a write error at any byte offset (or a failing compressor) yields a non-zero exit *)
+Definition s_fault_reached (c : scase) : bool :=
+  match sc_sink c with
+  | SNone => false
+  | SAlwaysFail => negb (sc_size c =? 0)
+  | SLimit k => k <? sc_size c
+  | SBadCompressor => true
+  end.
+Definition s_spec (c : scase) (exit_ok : bool) : bool := negb (s_fault_reached c) || negb exit_ok.
+Definition s_model (c : scase) : bool := exit_ok_by_size (sc_sink c) (sc_size c).
+
+Inductive case := CIn (c : LC.case) | CStage (s : scase).
+
+Definition spec (c : case) : bool :=
+  match c with
+  | CIn c => along_views (step_spec (c_cfg c)) (w0 c) (c_steps c)
+  | CStage s => s_spec s (sc_exit_ok s)
+  end.
+Definition wf (c : case) : bool := match c with CIn c => LC.wf c | CStage _ => true end.
 Definition kf (c : case) : N := 0.
-Definition verdict (c : case) : N := mkverdict (wf c) (LC.corr c) (spec c) (kf c).
+Definition corr (c : case) : bool :=
+  match c with CIn c => LC.corr c | CStage s => Bool.eqb (s_model s) (sc_exit_ok s) end.
+Definition verdict (c : case) : N := mkverdict (wf c) (corr c) (spec c) (kf c).
 End C10.
